@@ -1,9 +1,9 @@
 SPECIFICATION Spec
 CONSTANTS
   KeySeq <- KeySeqC
-  Vals <- Vals1
+  Vals <- ValsL
   Acts <- ActsC44
-  MaxOps = 7
+  MaxOps = 6
   DiskInits <- DiskEmpty6
   Contracts <- ContractsC
   Track = TRUE
